@@ -780,6 +780,8 @@ func (c Cmd) targetOptions() server.TargetOptions {
 		MaxRequestBodySize:  c.MaxReqBody,
 		MaxResponseBodySize: c.MaxRespBody,
 		ForwardHeaders:      c.ForwardHdrs,
+		LogRequestHeaders:   append([]string(nil), c.LogReq...),
+		LogResponseHeaders:  append([]string(nil), c.LogResp...),
 	}
 }
 
